@@ -50,6 +50,8 @@ func (*c08) Impl(c Case) []string {
 			switch t[1] {
 			case "tagswap":
 				return c08TagSwap(atoi(t[2]), atoi(t[3]))
+			case "tagswaphttp":
+				return c08TagSwapHTTP(atoi(t[2]), atoi(t[3]), t[4] == "1")
 			case "session":
 				return c08Session(atoi(t[2]), atoi(t[3]))
 			case "dupdelete":
@@ -112,6 +114,66 @@ func c08TagSwap(rounds, readers int) string {
 				if !bytes.Equal(data, m[0]) && !bytes.Equal(data, m[1]) {
 					missing.Add(1)
 					firstErr.CompareAndSwap(nil, "wrong-bytes")
+				}
+			}
+		}()
+	}
+	for i := 0; i < rounds; i++ {
+		k := (i + 1) % 2
+		if _, err := r.PushManifest(ctx, "a", "t", m[k], mtOpaque); err != nil {
+			stop.Store(true)
+			wg.Wait()
+			return "push failed: " + errClass(err)
+		}
+		if err := r.DeleteManifest(ctx, "a", dig[1-k]); err != nil {
+			stop.Store(true)
+			wg.Wait()
+			return "delete failed: " + errClass(err)
+		}
+	}
+	stop.Store(true)
+	wg.Wait()
+	if n := missing.Load(); n > 0 {
+		return fmt.Sprintf("tag-reported-missing %v", firstErr.Load())
+	}
+	return "ok"
+}
+
+// c08TagSwapHTTP: the same through ociserver (in-process handler calls), under each server
+// configuration that changes how a tag is read (external locations known to the server, but none
+// for this manifest).
+func c08TagSwapHTTP(rounds, readers int, locations bool) string {
+	ctx := context.Background()
+	r := ocimem.New()
+	m := [2][]byte{[]byte("manifest one"), []byte("manifest two")}
+	dig := [2]ociregistry.Digest{ociregistry.Digest(sha256Digest(m[0])), ociregistry.Digest(sha256Digest(m[1]))}
+	if _, err := r.PushManifest(ctx, "a", "t", m[0], mtOpaque); err != nil {
+		return "setup failed"
+	}
+	opts := &ociserver.Options{}
+	if locations {
+		opts.LocationsForDescriptor = func(isManifest bool, desc ociregistry.Descriptor) ([]string, error) { return nil, nil }
+	}
+	h := ociserver.New(r, opts)
+	var stop atomic.Bool
+	var missing atomic.Int64
+	var firstErr atomic.Value
+	var wg sync.WaitGroup
+	for i := 0; i < readers; i++ {
+		wg.Add(1)
+		go func() {
+			defer wg.Done()
+			for !stop.Load() {
+				for _, method := range []string{"GET", "HEAD"} {
+					w := httptest.NewRecorder()
+					h.ServeHTTP(w, httptest.NewRequest(method, "/v2/a/manifests/t", nil))
+					if w.Code != 200 {
+						missing.Add(1)
+						firstErr.CompareAndSwap(nil, fmt.Sprintf("%s %d", method, w.Code))
+					} else if b := w.Body.Bytes(); method == "GET" && !bytes.Equal(b, m[0]) && !bytes.Equal(b, m[1]) {
+						missing.Add(1)
+						firstErr.CompareAndSwap(nil, "wrong-bytes")
+					}
 				}
 			}
 		}()
@@ -468,6 +530,8 @@ func (*c08) Gen(rng *RNG, tier string) []Case {
 	}
 	cases = append(cases, Case{Tag: "tagswap", Lines: []string{fmt.Sprintf("conc tagswap %d 4", rounds)}})
 	cases = append(cases, Case{Tag: "tagswap", Lines: []string{fmt.Sprintf("conc tagswap %d 8", rounds/2)}})
+	cases = append(cases, Case{Tag: "tagswap", Lines: []string{fmt.Sprintf("conc tagswaphttp %d 4 0", rounds/4)}})
+	cases = append(cases, Case{Tag: "tagswap", Lines: []string{fmt.Sprintf("conc tagswaphttp %d 4 1", rounds/4)}})
 	sr := 300
 	if tier == "thorough" {
 		sr = 5000
